@@ -96,7 +96,7 @@ def run(ctx):
     ]
     bad = common.forbidden_scan()
     tj = gen.gen_tables()
-    cres = common.coq_properties([PID, "C03_build"])
+    cres = common.coq_properties([PID, "C03_build", "C03_conv"])
     common.proof_coverage(ctx, cres)
     proof_broken = (not cres["ok"]) or bool(bad)
     h01 = common.build_harness("c01_harness", tag="-vfmem", libs=("-lexpat", "-lpthread"))
@@ -240,8 +240,26 @@ def run(ctx):
     for cr in crashes:
         violations.append({"what": "crash-or-sanitizer-report", **cr})
 
+    # ---- tie of the two conversion MODELS run back to back (ConvXml2Wbxml then ConvConcrete, extracted) to the C's own
+    #      xml -> wbxml -> xml (and the second iteration), stage by stage: status and bytes
+    rt = None
+    if not getattr(ctx, "replay", None):
+        try:
+            from vlib import convmodel
+            if hasattr(convmodel, "roundtrip"):
+                rt = convmodel.roundtrip(ctx.seed, quick, sources=[(n, x) for n, x in srcs if not n.startswith("literal-root")])
+        except common.BuildError:
+            raise
+        except ImportError:
+            pass
+    if rt is not None:
+        ctx.coverage["conversion_models_roundtrip_tie"] = {k: rt[k] for k in ("evaluations", "stages", "cases", "sources", "second_iteration_xml_identical",
+                                                                                "second_iteration_xml_differs", "second_wbxml_equals_first", "second_wbxml_differs_from_first") if k in rt}
+        ctx.coverage["conversion_models_roundtrip_tie"]["disagreements"] = len(rt.get("disagreements", []))
+        for cr in (rt.get("crashes") or [])[:3]:
+            violations.append({"what": "crash-or-sanitizer-report", "where": "round-trip model tie", **(cr if isinstance(cr, dict) else {"crash": str(cr)})})
     ctx.coverage.update({
-        "evaluations": len(cases),
+        "evaluations": len(cases) + (rt["evaluations"] if rt else 0),
         "distinct_nontrivial": len(nontrivial),
         "rule": "case = (source, version, use_strtbl, keep_ws); sources = project corpus + documents synthesised from every language's tables (c06_gen stream 3, "
                 "tokenised root) + 6 literal-root AirSync documents; non-trivial = a first result XML was produced, distinct by (language, bytes)",
@@ -258,7 +276,10 @@ def run(ctx):
             ctx.known_hits.append(key)
     for v in violations[:6]:
         ctx.violation(v.pop("what"), {"replay_cmd": "bin/check C03 --replay <this file>", **v})
+    if not violations and rt is not None and rt.get("disagreements"):
+        ctx.violation("conversion-models-correspondence-broken", {"broken": "the extracted conversion models (ConvXml2Wbxml.v, ConvConcrete.v) and the C disagree on a stage of xml -> wbxml -> xml; the C satisfied the C03 oracle on every case",
+                                                                  "first_cases": [{k: str(v)[:1500] for k, v in d.items()} for d in rt["disagreements"][:3]]}, found_input=False)
     if not violations and proof_broken:
-        ctx.violation("proof-broken", {"broken": "Properties_C03.v no longer checks", "failed_theorems": cres["failed"],
+        ctx.violation("proof-broken", {"broken": "Properties_C03.v / Properties_C03_build.v / Properties_C03_conv.v no longer check", "failed_theorems": cres["failed"],
                                        "broken_at": cres.get("broken_at"), "forbidden": bad, "log_tail": cres["log"][-3000:],
                                        "search": "the C satisfied the C03 oracle on %d cases" % len(cases)}, found_input=False)
